@@ -223,7 +223,10 @@ def parse_output(run, out):
             ms = a[5].split('=')[1]
             if ms:
                 for m in ms.split(','):
-                    t, o, cnt = m.split(':'); g['members'].append((int(t), int(o), int(cnt)))
+                    f = m.split(':'); g['members'].append((int(f[0]), int(f[1]), int(f[2])))
+                    g.setdefault('sync', []).append(int(f[3]) if len(f) > 3 else 0)
+            for x in a[6:]:
+                if x.startswith('lsc='): g['lsc'] = int(x[4:])
             run.groups.append(g)
         elif c in 'AE' and (ln.startswith('A ') or ln.startswith('E ')):
             run.abs.append(ln)
@@ -233,6 +236,8 @@ def parse_output(run, out):
             run.final = ln[6:]
         elif c == 'J' and ln.startswith('JOINED'):
             run.joined = int(ln.split(' ')[1])
+            for x in ln.split(' ')[2:]:
+                if x.startswith('lsc='): run.joined_lsc = int(x[4:])
         elif c == 'C' and ln == 'CLOSED':
             run.closed = True
         elif c == 'D' and ln.startswith('DONE'):
@@ -637,6 +642,26 @@ def check_final(run, sc):
             k, _, val = it.partition('=')
             if k and parse_val(val) != d.get(k):
                 problems.append({'kind': 'final-get-differs-from-final-scan', 'key': k, 'get': val, 'scan': d.get(k)})
+    return problems
+
+def check_group_sync(run, sc, stats):
+    """C02 under group commit: a group that contains a sync=1 writer must be followed by an fsync of the
+    write-ahead log before the next group is built (only the leader of a group touches the log, so the log
+    fsyncs counted between two consecutive group builds are that leader's)."""
+    problems = []
+    gs = run.groups
+    for i, g in enumerate(gs):
+        if 'lsc' not in g or not any(g.get('sync', [])): continue
+        nxt = gs[i + 1].get('lsc') if i + 1 < len(gs) else getattr(run, 'joined_lsc', None)
+        if nxt is None: continue
+        stats['sync_groups'] = stats.get('sync_groups', 0) + 1
+        if len(g['members']) > 1: stats['sync_groups_multi'] = stats.get('sync_groups_multi', 0) + 1
+        # the group's writes must have been acknowledged OK for the demand to apply
+        oks = [run.ops.get((t, o)) for (t, o, c) in g['members']]
+        if any(o is None or o.res is None or not str(o.res).startswith('0') for o in oks): continue
+        if nxt <= g['lsc']:
+            problems.append({'kind': 'sync-write-acknowledged-without-log-fsync', 'group': i, 'leader': g['leader'], 'members': g['members'],
+                             'sync_flags': g.get('sync'), 'log_fsyncs_before': g['lsc'], 'log_fsyncs_at_next_group': nxt})
     return problems
 
 def check_c08_run(run, sc, stats):
